@@ -539,3 +539,36 @@ def r18_9(prog, out):
                               ["length guard on the raw input at %s" % bi.loc(raw_guards[0]), "%s() at %s" % (tname, tloc), "no length check on the stored components afterwards"])
     if n < 2:
         raise CheckBroken("expected the topic-name and the subscription-name parser")
+
+
+@rule("C18", "R18.10", "membership of a name in a project is decided by equality of the whole project id", floor=2)
+@rule("C10", "R18.10", "membership of a name in a project is decided by equality of the whole project id", floor=2)
+@rule("C13", "R18.10", "membership of a name in a project is decided by equality of the whole project id", floor=2)
+def r18_10(prog, out):
+    """`same project` (CreateSubscription) and `in this project` (the listings) are predicates of the name types taking the
+    project id as a string.  They hold exactly when the ids are equal: a prefix / substring / case-insensitive test makes
+    `acme` a member of `acme-staging`."""
+    n = 0
+    for label, ty in name_types(prog):
+        for b in prog.facts.lib_bodies():
+            if b.impl_self != ty or b.kind != "AssocFn" or b.impl_trait or b.local_ty(0) != "bool":
+                continue
+            strs = [i for i in range(2, b.arg_count + 1) if (b.local_ty(i) or "") in ("&str", "&std::string::String")]
+            if b.arg_count != 2 or not strs:
+                continue
+            n += 1
+            bi = prog.info(b.id)
+            key = "%s:%s:equality" % (label, b.id.split("::")[-1])
+            names = {t.callee.path.split("::")[-1] for bb, t in bi.calls()}
+            loose = sorted(names & {"starts_with", "ends_with", "contains", "find", "rfind", "strip_prefix", "strip_suffix", "eq_ignore_ascii_case",
+                                    "to_lowercase", "to_uppercase", "to_ascii_lowercase", "to_ascii_uppercase", "matches", "trim", "trim_matches", "split", "get"})
+            eqs = [t for bb, t in bi.calls(lambda c: c.path in ("std::cmp::PartialEq::eq", "std::cmp::PartialEq::ne"))]
+            if loose:
+                out.violation(key, prog.loc(b.id), "%s decides project membership with %s: a project id that is only part of (or differs in case from) the name's "
+                              "project id is accepted" % (prog.short(b.id), loose))
+            elif eqs:
+                out.holds(key, prog.loc(b.id), "compares the whole project id for equality")
+            else:
+                out.undecided(key, prog.loc(b.id), "no equality comparison found")
+    if n < 2:
+        raise CheckBroken("expected a project-membership predicate on both name types, found %d" % n)
